@@ -303,8 +303,8 @@ def rule_gcd(col, gcd, Af, rid="Q2"):
         col.violation(rid, key, gcd.loc(), "gcd's loop is not the remainder/swap loop over the absolute values")
 
 
-def gcd_analyser(prog, crate, fixture=None):
-    free = [f for f in crate.bodies if not f.is_closure and f.kind == "Fn" and f.container is None and f.vis != "pub" and not util.self_recursive(f)]
+def gcd_analyser(prog, crate, fixture=None, extra=()):
+    free = list(extra) + [f for f in crate.bodies if not f.is_closure and f.kind == "Fn" and f.container is None and f.vis != "pub" and not util.self_recursive(f)]
     # methods the Integer / ZeroOne traits provide themselves (`fn is_zero(&self) -> bool { *self == Self::ZERO }`) are what a
     # call on the type parameter runs unless an impl overrides them (none of the primitive impls may: checked by Q4's coverage)
     nt_ = prog.crates.get("rlib_num_traits") if not fixture else None
@@ -442,7 +442,11 @@ def check(col, prog, tier, profile, fixture=None):
     rule_gcd(col, gcd, Af)
     if not fixture:
         rule_integer_prims(col, prog)
-    I = Af(lcm)
+    # an entry point that hands its work to another free function of the crate (`lcm` = `try_lcm(a, b).expect(..)`) is read
+    # together with it
+    lk_ = {util.callee_key(t) for bb, t in lcm.calls()}
+    deleg_ = [f for f in crate.bodies if f.key in lk_ and not f.is_closure and f.kind == "Fn" and f.container is None and f.key not in (gcd.key, egcd.key, crt.key, lcm.key) and not util.self_recursive(f)]
+    I = (gcd_analyser(prog, crate, fixture, extra=deleg_) if deleg_ else Af)(lcm)
     la, lb = ("param", 1, I.names.get(1)), ("param", 2, I.names.get(2))
 
     def _unref(x):
@@ -480,6 +484,48 @@ def check(col, prog, tier, profile, fixture=None):
                     gargs = [_operand_of(x) for x in den[2] if not (isinstance(x, tuple) and x and x[0] == "mem")]
                     ok = {_operand_of(num), _operand_of(rv)} == {la, lb} and set(gargs) == {la, lb}
         key = "%s|abs-div-mul" % fk(lcm)
+        if not ok and deleg_:
+            # through the delegate: the `None` the entry unwraps is a panic, not a result; zero for a zero operand is the product
+            if tstr(ret).startswith("(Option::None"):
+                # the delegate refuses (and the entry panics) only when the product does not fit: q > MAX / |b| for the
+                # quotient q = |a| / gcd - a non-strict test also refuses q * |b| == MAX - (MAX mod |b|), which fits
+                def _refusal(f_):
+                    t_ = f_[1]
+                    if not (f_[0] == "eq" and isinstance(t_, tuple) and t_[0] == "call"):
+                        return False
+                    nm_ = str(t_[1]).split("::")[-1]
+                    as_ = [_unref(x_) for x_ in t_[2] if not (isinstance(x_, tuple) and x_ and x_[0] == "mem")]
+                    if len(as_) != 2 or nm_ not in ("gt", "lt", "le", "ge"):
+                        return False
+                    # normalise to  big > small  being true
+                    if (nm_, f_[2]) in (("gt", 1), ("le", 0)):
+                        big, small = as_
+                    elif (nm_, f_[2]) in (("lt", 1), ("ge", 0)):
+                        small, big = as_
+                    else:
+                        return False
+                    def _is_div(x_):
+                        return isinstance(x_, tuple) and x_ and x_[0] == "call" and str(x_[1]).endswith("Div::div")
+                    if not (_is_div(big) and _is_div(small)):
+                        return False
+                    sa_ = [_unref(x_) for x_ in small[2] if not (isinstance(x_, tuple) and x_ and x_[0] == "mem")]
+                    ba_ = [_unref(x_) for x_ in big[2] if not (isinstance(x_, tuple) and x_ and x_[0] == "mem")]
+                    return (sa_[0][0] == "assoc" and "MAX" in tstr(sa_[0]) and _is_abs(sa_[1]) and _is_abs(ba_[0])
+                            and ba_[1][0] == "call" and str(ba_[1][1]).split("::")[-1] == "gcd" and {_operand_of(sa_[1]), _operand_of(ba_[0])} == {la, lb})
+                if any(_refusal(f_) for f_ in st.facts):
+                    col.ok("Q2", lcm.loc(), key + "|refuses-only-overflow", "None (a panic in lcm) only under |a|/gcd > MAX/|b|", nontrivial=False)
+                else:
+                    col.violation("Q2", key + "|refuses-a-fitting-result", lcm.loc(), "lcm gives up (the delegate returns None, the entry panics) on a path that is not guarded by |a|/gcd > MAX/|b|: a least common multiple that fits the type is refused")
+                continue
+            def _zero_test(f_):
+                t_ = f_[1]
+                if not (f_[0] == "eq" and f_[2] == 1 and isinstance(t_, tuple) and t_[0] == "call" and str(t_[1]).split("::")[-1] == "eq"):
+                    return False
+                as_ = [_unref(x_) for x_ in t_[2] if not (isinstance(x_, tuple) and x_ and x_[0] == "mem")]
+                return any(_is_abs(x_) and _operand_of(x_) in (la, lb) for x_ in as_) and any(isinstance(x_, tuple) and x_ and x_[0] == "assoc" and "ZERO" in tstr(x_) for x_ in as_)
+            if isinstance(ret, tuple) and ret[0] == "assoc" and "ZERO" in tstr(ret) and any(_zero_test(f_) for f_ in st.facts):
+                col.ok("Q2", lcm.loc(), key + "|zero-operand", "zero for a zero operand", nontrivial=False)
+                continue
         if ok:
             col.ok("Q2", lcm.loc(), key, "(|a| / gcd(a, b)) * |b|")
             col.ok("Q2", lcm.loc(), key + "|order", "division before multiplication", nontrivial=False)
